@@ -7,8 +7,12 @@ CONSTANTS
   MaxFeat = 3
   MaxAdm = 5
   MinEmit = 1
-  SampleMod = 20
+  MaxRmSet = 2
+  SampleMod = 16
   SampleRes = 0
+  Thin = 1
+  ThinRes = 0
+  FullDepth = 0
 INIT Init
 NEXT Next
 INVARIANT T0_Machine
@@ -16,6 +20,7 @@ INVARIANT T1_FullExpr
 INVARIANT T2_DepSound
 INVARIANT T3_DepBounds
 INVARIANT T4_Remove
+INVARIANT T4b_FixedRemove
 INVARIANT T5_Reassign
 INVARIANT T6_Subs
 INVARIANT T7_Used
